@@ -1,7 +1,10 @@
 #!/usr/bin/env python3
 """Checker self-test (not a registered check): applies one-edit mutants to a scratch copy of /repo (outside /repo and
 /verif, removed afterwards) and asserts that the named property check fires with the expected rule/key substring,
-and that the unmodified copy is silent.   usage: selftest/run.py [--only ID,ID] [--prop C01]"""
+and that the unmodified copy is silent.   usage: selftest/run.py [--only ID,ID] [--prop C01] [--refactors [NAME,..]]
+A mutant may name a behaviour-preserving refactoring (selftest/refactors/<pre>.diff) that is applied first: the edit is
+then made to the refactored source.  --refactors applies each stored refactoring alone and requires every property check
+to stay silent (false-alarm test)."""
 import os, re, shutil, subprocess, sys, tempfile, json
 HERE = os.path.dirname(os.path.abspath(__file__))
 VERIF = os.path.dirname(HERE)
@@ -12,8 +15,11 @@ def sh(cmd, **kw):
     return subprocess.run(cmd, shell=True, stdout=subprocess.PIPE, stderr=subprocess.STDOUT, text=True, **kw)
 
 def main():
-    only = None; prop = None
+    only = None; prop = None; refac = None
     a = sys.argv[1:]
+    if '--refactors' in a:
+        i = a.index('--refactors')
+        refac = set(a[i+1].split(',')) if i + 1 < len(a) and not a[i+1].startswith('--') else 'all' 
     if '--only' in a: only = set(a[a.index('--only')+1].split(','))
     if '--prop' in a: prop = set(a[a.index('--prop')+1].split(','))
     scratch = tempfile.mkdtemp(prefix='biomut-')
@@ -22,15 +28,50 @@ def main():
     res = []
     try:
         sh('rsync -a --exclude target --exclude .git /repo/ %s/' % scratch)
+        def restore():
+            sh('rsync -a --delete --exclude target --exclude .git /repo/ %s/' % scratch)
+        if refac:
+            rdir = os.path.join(HERE, 'refactors')
+            names = sorted(f[:-5] for f in os.listdir(rdir) if f.endswith('.diff'))
+            allp = ['C%02d' % i for i in range(1, 21)]
+            for nm in names:
+                if refac != 'all' and nm not in refac: continue
+                r0 = sh('cd %s && patch -p1 -s < %s' % (scratch, os.path.join(rdir, nm + '.diff')))
+                if r0.returncode != 0:
+                    res.append(('refactor:' + nm, 'STALE', r0.stdout[-300:])); restore(); continue
+                # first check extracts, the others run in parallel on the cached facts
+                procs = []
+                first = subprocess.run([os.path.join(VERIF, 'bin', 'check'), allp[0], '--root', scratch], env=env,
+                                       stdout=subprocess.PIPE, stderr=subprocess.STDOUT, text=True)
+                outs = {allp[0]: (first.returncode, first.stdout)}
+                for p in allp[1:]:
+                    procs.append((p, subprocess.Popen([os.path.join(VERIF, 'bin', 'check'), p, '--root', scratch], env=env,
+                                                      stdout=subprocess.PIPE, stderr=subprocess.STDOUT, text=True)))
+                for p, pr in procs:
+                    o, _ = pr.communicate()
+                    outs[p] = (pr.returncode, o)
+                alarms = [p for p in allp if outs[p][0] != 0]
+                if alarms:
+                    res.append(('refactor:' + nm, 'FALSE-ALARM', '\n'.join('%s: %s' % (p, outs[p][1][-500:]) for p in alarms)))
+                else:
+                    res.append(('refactor:' + nm, 'ok-silent', ''))
+                restore()
         for m in MUTANTS:
+            if refac and not only and not prop: break
             if only and m['id'] not in only: continue
             if prop and m['prop'] not in prop: continue
+            if m.get('pre'):
+                r0 = sh('cd %s && patch -p1 -s < %s' % (scratch, os.path.join(HERE, 'refactors', m['pre'] + '.diff')))
+                if r0.returncode != 0:
+                    res.append((m['id'], 'STALE', 'refactoring %s does not apply: %s' % (m['pre'], r0.stdout[-200:])))
+                    restore(); continue
             path = os.path.join(scratch, m['file'])
             orig = open(path).read()
             cnt = orig.count(m['find'])
             want_cnt = m.get('count', 1)
             if cnt != want_cnt:
                 res.append((m['id'], 'STALE', 'pattern occurs %d times (want %d)' % (cnt, want_cnt)))
+                if m.get('pre'): restore()
                 continue
             which = m.get('which', 0)
             if want_cnt == 1:
@@ -55,9 +96,10 @@ def main():
                     res.append((m['id'], 'MISSED', out[-300:]))
             finally:
                 open(path, 'w').write(orig)
+                if m.get('pre'): restore()
         # unmodified copy must be silent for every property touched
         props = sorted({m['prop'] for m in MUTANTS if (not prop or m['prop'] in prop)})
-        if not only:
+        if not only and not (refac and not prop):
             for p in props:
                 r = subprocess.run([os.path.join(VERIF, 'bin', 'check'), p, '--root', scratch], env=env,
                                    stdout=subprocess.PIPE, stderr=subprocess.STDOUT, text=True)
